@@ -68,6 +68,24 @@ package stake
 //@   ensures idx < old(len(delegatee.Stakes)) ==> result == old(delegatee.Stakes[idx]) && len(delegatee.Stakes) == old(len(delegatee.Stakes)) - 1   [C11]
 //@   ensures idx < old(len(delegatee.Stakes)) ==> (forall i :: 0 <= i && i < idx ==> delegatee.Stakes[i] == old(delegatee.Stakes[i])) && (forall i :: idx <= i && i < len(delegatee.Stakes) ==> delegatee.Stakes[i] == old(delegatee.Stakes[i + 1]))   [C11]
 
+// every caller passes exactly one stake; the contract is the inductive step of "TotalPower is the sum of the bonded powers"
+//@ func (delegatee *Delegatee) addStake(stakes)
+//@   nopanic
+//@   requires wf_delg(delegatee) && len(stakes) == 1 && stakes[0] != nil
+//@   modifies delegatee.Stakes, elems(delegatee.Stakes), delegatee.SelfPower, delegatee.TotalPower
+//@   allocates []*Stake
+//@   ensures result == nil && wf_delg(delegatee)                                                              [C11]
+//@   ensures delegatee.TotalPower == old(delegatee.TotalPower) + stakes[0].Power                              [C11]
+//@   ensures delegatee.SelfPower == old(delegatee.SelfPower) + ((content(stakes[0].From) == content(stakes[0].To) || (len(stakes[0].From) == 0 && len(stakes[0].To) == 0)) ? stakes[0].Power : 0)   [C11]
+//@   ensures len(delegatee.Stakes) == old(len(delegatee.Stakes)) + 1 && delegatee.Stakes[old(len(delegatee.Stakes))] == stakes[0]   [C11]
+//@   ensures forall i :: 0 <= i && i < old(len(delegatee.Stakes)) ==> delegatee.Stakes[i] == old(delegatee.Stakes[i])   [C11]
+//@   loop 0: modifies delegatee.SelfPower, delegatee.TotalPower
+//@   loop 0: invariant rangeindex == -1 ==> delegatee.TotalPower == old(delegatee.TotalPower) && delegatee.SelfPower == old(delegatee.SelfPower)
+//@   loop 0: invariant rangeindex == 0 ==> delegatee.TotalPower == old(delegatee.TotalPower) + stakes[0].Power && delegatee.SelfPower == old(delegatee.SelfPower) + ((content(stakes[0].From) == content(stakes[0].To) || (len(stakes[0].From) == 0 && len(stakes[0].To) == 0)) ? stakes[0].Power : 0)
+
+//@ func (delegatee *Delegatee) AddStake(stakes)
+//@   sameas (*Delegatee).addStake
+
 //@ func (delegatee *Delegatee) DelStake(txhash)
 //@   nopanic
 //@   requires wf_delg(delegatee)
@@ -108,6 +126,34 @@ package stake
 //@   ensures result == nil && ctx.Tx.Type == 8 ==> u(ctx.Tx.Amount) == 0 && istype(ctx.Tx.Payload, ptr(TrxPayloadWithdraw))   [C13]
 //@   ensures result == nil && ctx.Tx.Type == 8 ==> allocated(rwd_at(ctrler.rewardLedger, lkey(content(ctx.Tx.From)), ctx.Exec)) && wf_rwd(rwd_at(ctrler.rewardLedger, lkey(content(ctx.Tx.From)), ctx.Exec))   [C13]
 //@   ensures result == nil && ctx.Tx.Type == 8 ==> u(as(ctx.Tx.Payload, ptr(TrxPayloadWithdraw)).ReqAmt) <= u(rwd_at(ctrler.rewardLedger, lkey(content(ctx.Tx.From)), ctx.Exec).cumulated)   [C13]
+
+// ---- execution of staking transactions (C02, C05, C11) ------------------------------------------
+
+//@ func (ctrler *StakeCtrler) exeStaking(ctx)
+//@   objinv ctrler != nil && ctrler.delegateeLedger != nil
+//@   assumes cons_ok == ctx.Exec
+//@   assumes noalias(ctx)
+//@   requires wf_ctx(ctx) && ctx.Tx.Type == 2 && u(ctx.Tx.Amount) < 2^120
+//@   modifies everything
+//@   preserves feeSumObj, u(feeSumObj), govPriceObj, u(govPriceObj), RigoApp.*, BlockContext.*, Config.*, GovParams.gasPrice, Account.Nonce, Account.Balance, Account.Code, Trx.*, TrxContext.*, govGasPrice, govMinTrxGas
+//@   ensures wf_ctx(ctx) && tx_same(ctx.Tx)
+//@   ensures result != nil ==> u(ctx.Sender.Balance) == old(u(ctx.Sender.Balance))                           [C05]
+//@   ensures result == nil ==> u(ctx.Sender.Balance) == old(u(ctx.Sender.Balance)) - u(ctx.Tx.Amount)        [C02]
+//@   assert@call(SubBalance,0): $arg0 == ctx.Sender && $arg1 == ctx.Tx.Amount                                 [C02]
+//@   assert@call(AddStake,0): len($arg1) == 1 && $arg1[0].Power == u(ctx.Tx.Amount) / 10^18 && $arg1[0].From == ctx.Tx.From && $arg1[0].To == ctx.Tx.To && $arg1[0].TxHash == ctx.TxHash && $arg1[0].RefundHeight == 0   [C11]
+//@   assert@call(AddStake,0): content(ctx.Tx.From) != content(ctx.Tx.To) ==> $arg0 == delg_at(ctrler.delegateeLedger, lkey(content(ctx.Tx.To)), ctx.Exec)   [C11]
+
+//@ func (ctrler *StakeCtrler) ExecuteTrx(ctx)
+//@   implements (ITrxHandler_TrxStakeHandler).ExecuteTrx
+//@   objinv ctrler != nil && ctrler.delegateeLedger != nil && ctrler.frozenLedger != nil && ctrler.rewardLedger != nil
+//@   assumes cons_ok == ctx.Exec
+//@   assumes noalias(ctx)
+//@   requires wf_ctx(ctx)
+//@   modifies everything
+//@   preserves feeSumObj, u(feeSumObj), govPriceObj, u(govPriceObj), RigoApp.*, BlockContext.*, Config.*, GovParams.gasPrice, Account.Nonce, Account.Balance, Account.Code, Trx.*, TrxContext.*, govGasPrice, govMinTrxGas
+//@   ensures wf_ctx(ctx) && tx_same(ctx.Tx)
+//@   ensures result != nil ==> u(ctx.Sender.Balance) == old(u(ctx.Sender.Balance))                           [C05]
+//@   ensures result == nil ==> u(ctx.Sender.Balance) >= old(u(ctx.Sender.Balance)) - u(ctx.Tx.Amount)        [C16]
 
 // ---- withdraw, unbonding and refund in the controller (C12, C13, C06) ----------------------------
 
